@@ -48,9 +48,14 @@ def run(ctx):
     ctx.mc("mc-addalg", "C01", "IntAddAlg.tla", cfg)
     ctx.scope.update({"IntAddAlg": {"W": 2, "MaxV": maxv}})
     # spec -> impl: the partition enumerated by TLC
-    classes = ctx.pick([0, 1, 2, 3, 4, 23, 24, 25, 26, 32, 33], [0, 1, 2, 3, 4, 5, 23, 24, 25, 26, 31, 32, 33, 34, 64, 97])
+    # the size classes follow the switch points of the code (read from the source, pinned values as fallback)
+    sc = fw.source_constants()
+    ts, tk, sq = sc["MUL_THRESHOLD_SIMPLE"], sc["MUL_THRESHOLD_KARATSUBA"], sc["SQR_MAX_LEN_SIMPLE"]
+    classes = sorted(set(ctx.pick([0, 1, 2, 3, 4, ts - 1, ts, ts + 1, ts + 2, sq + 2, sq + 3],
+                                  [0, 1, 2, 3, 4, 5, ts - 1, ts, ts + 1, ts + 2, sq, sq + 1, sq + 2, sq + 3, sq + 4, 64, 97])))
     k = ctx.pick(2, 4)
-    big = ctx.pick([192, 193, 194], [191, 192, 193, 194, 195, 200, 256])
+    big = sorted(set(ctx.pick([tk, tk + 1, tk + 2], [tk - 1, tk, tk + 1, tk + 2, tk + 3, tk + 8, tk + 64])))
+    ctx.scope.update({"source_constants": sc})
     ctx.scope.update({"classes_words": classes, "toom3_classes_words": big, "variants": k})
     cfg = fw.write_cfg(ctx.path("Gen_C01.cfg"), invariants=["Emit"],
                        constants={"Classes": fw.tla_set(classes), "BigClasses": fw.tla_set(big), "K": k, "Seed": ctx.seed % 1000})
